@@ -61,16 +61,17 @@ structure FrameAt (P : Prog) (A : Array Anns) (g : Frame) (fn : Function) (a : A
 def SelNotAt (sel : Option SelectState) (k : Nat) : Prop := ∀ st, sel = some st → st.frame ≠ k
 
 /-- Suspended frames (head = innermost caller). `sbAbove` / `lbAbove` are the stack base (position
-of the callee's argument) and locals base of the frame directly above. -/
-def Below (P : Prog) (A : Array Anns) (sel : Option SelectState) : List Frame → Nat → Nat → Prop
-  | [], _, _ => True
+of the callee's argument) and locals base of the frame directly above; `s0` is the stack base of
+the bottom frame (number of cells below the process's first argument). -/
+def Below (P : Prog) (A : Array Anns) (s0 : Nat) (sel : Option SelectState) : List Frame → Nat → Nat → Prop
+  | [], sbAbove, _ => sbAbove = s0
   | g :: rest, sbAbove, lbAbove =>
     ∃ fn a i sb, FrameAt P A g fn a i ∧ g.localsBase + a.locals ≤ lbAbove ∧
       ((i = .call ∧ sbAbove + 2 = sb + a.height ∧ SelNotAt sel rest.length) ∨
        (i = .select ∧ sbAbove + 1 = sb + a.height ∧
           ∃ st, sel = some st ∧ st.frame = rest.length ∧ st.instruction = g.counter ∧
             st.receiving.isSome = true)) ∧
-      Below P A sel rest sb g.localsBase
+      Below P A s0 sel rest sb g.localsBase
 
 /-- Shape of the current frame `f` (frame index `k`, stack base `sb`) of a process whose stack has
 `sLen` cells, whose locals number `lLen`, with parking state `park` and select state `sel`. -/
@@ -106,8 +107,8 @@ inductive TopShape (P : Prog) (A : Array Anns) (f : Frame) (k sb sLen lLen : Nat
               (park = .none ∨ park = .selecting)) ∨
             (st.receiving.isSome = true ∧ sLen = sb + a.height ∧ park = .none))
 
-/-- **The invariant.** -/
-structure Inv (P : Prog) (A : Array Anns) (p : Proc) : Prop where
+/-- **The invariant** (`s0` = stack cells below the process's first argument). -/
+structure Inv (P : Prog) (A : Array Anns) (s0 : Nat) (p : Proc) : Prop where
   stackWF : AllWF P p.stack
   localsWF : AllWF P p.locals
   selWF : ∀ st, p.selectState = some st → AllWF P st.sources
@@ -115,19 +116,19 @@ structure Inv (P : Prog) (A : Array Anns) (p : Proc) : Prop where
   noErr : ∀ e, p.result ≠ some (.error e)
   shape :
     match p.frames with
-    | [] => p.park = .none ∧ (p.result = none → p.stack ≠ [])
+    | [] => p.park = .none ∧ (p.result = none → p.stack.length = s0 + 1)
     | f :: rest =>
       p.result = none ∧
       ∃ sb, TopShape P A f rest.length sb p.stack.length p.locals.length p.park p.selectState ∧
-        Below P A p.selectState rest sb f.localsBase
+        Below P A s0 p.selectState rest sb f.localsBase
 
 /-- Entry state: a single frame at counter 0 of an existing function with the right number of
 captures, its argument on top of an arbitrary (well-formed) stack, at least `captures`
 (well-formed) locals above the frame's base. `Proc.spawn` produces such a state. -/
-structure EntryWF (P : Prog) (p : Proc) : Prop where
+structure EntryWF (P : Prog) (s0 : Nat) (p : Proc) : Prop where
   frame : ∃ f fn, p.frames = [f] ∧ f.counter = 0 ∧ P.functions[f.functionIndex]? = some fn ∧
     f.capturesCount = fn.captures ∧ f.localsBase + fn.captures ≤ p.locals.length
-  stack : p.stack ≠ []
+  stack : p.stack.length = s0 + 1
   stackWF : AllWF P p.stack
   localsWF : AllWF P p.locals
   park : p.park = .none
